@@ -82,11 +82,17 @@ def register_forward_ref(
             #   attr1: 'forward' = Field(gt=1)
             #   attr2: 'forward' = Field(gt=2)
             # we use forward_key (attname) over forward_arg
-            forward_refs.setdefault(
-                f"${forward_key}" if forward_key else annotation.__forward_arg__,
-                # use a $ to differ from forward arg
-                (annotation, constraints),
-            )
+            key = f"${forward_key}" if forward_key else annotation.__forward_arg__
+            # use a $ to differ from forward arg
+            n = 0
+            while key in forward_refs and forward_refs[key][0] is not annotation:
+                # class A:
+                #   attr1: Optional['forward']
+                #   attr2: Dict[str, 'forward']
+                # each annotation carries its own ForwardRef object, every one of them has to be resolved
+                n += 1
+                key = f"{annotation.__forward_arg__}#{n}"
+            forward_refs.setdefault(key, (annotation, constraints))
             # still not evaluated
             return annotation
         # raise TypeError(f'{repr(forward_key)}: Unsupported ForwardRef: {annotation}')
